@@ -38,7 +38,7 @@ LINK_tsi   := -Wl,--wrap=__cxa_guard_acquire -Wl,--wrap=__cxa_guard_release \
               -Wl,--wrap=setlocale
 
 SRCS_common := main.cc alloc.cc steps.cc pool.cc work.cc geom.cc faults.cc chan.cc \
-               prim.cc env.cc legacy_eb.cc
+               prim.cc env.cc legacy_eb.cc byz.cc
 SRCS_tsi := sched.cc tsanrt.cc
 ifeq ($(VARIANT),tsi)
 SRCS := $(SRCS_common) $(SRCS_tsi)
